@@ -6,7 +6,7 @@
    leaf-list values, one case per choice, mandatory leaf / anydata / choice, min- / max-elements, unique). when / must /
    leafref / instance-identifier are NOT in these models (covered by the oracle of tools/props/comps_valid.py). *)
 From Coq Require Import Permutation.
-From LY Require Import Base Tree RfcValid ValidateImpl ValidP.
+From LY Require Import Base Tree RfcValid ValidateImpl ValidP ValidNsP.
 
 (* The statement for trees with ARBITRARY LYD_NEW / LYD_DEFAULT flags (kept visible): for every well-formed schema and
    every such tree whose values are of their types and whose list entries have their keys, validation succeeds iff the
@@ -163,6 +163,58 @@ Theorem C02_impl_verdict_perm_invariant :
     (impl_parse_validate vs ty f = VOk <-> impl_parse_validate vs ty g = VOk).
 Proof. exact impl_verdict_permt. Qed.
 Print Assumptions C02_impl_verdict_perm_invariant.
+
+(* CONFIGURATION ONLY (LYD_VALIDATE_NO_STATE). cfg_view vs is the schema in which config false nodes carry no mandatory /
+   min-elements / max-elements / unique constraint and no default (same schema tree, same kinds, keys and config flags:
+   C02_config_view); rfc_valid_config ty vs f = the tree has no config false node (rfc_nostate) and is RFC-valid for
+   cfg_view vs. impl_parse_validate_config is the as-coded run with the option: the parser and lyd_validate_new as
+   before, lyd_validate_final_r with the per-node "state" check of every level before the schema checks of that level,
+   the schema checks and lyd_new_implicit skipping config false schema nodes. For every schema whose configuration view
+   is well formed and every fresh tree, the run succeeds iff the tree is a valid configuration. *)
+Theorem C02_config_validate_iff_rfc_partial :
+  forall ty vs f, vschema_ok (cfg_view vs) = true -> fresh vs f = true ->
+    (impl_parse_validate_config vs ty f = VOk <-> rfc_valid_config ty vs f = true).
+Proof. exact config_validate_iff_rfc. Qed.
+Print Assumptions C02_config_validate_iff_rfc_partial.
+
+(* the reported class is a violated one (EState: some node of the tree is config false) *)
+Theorem C02_config_error_sound :
+  forall ty vs f e, vschema_ok (cfg_view vs) = true -> fresh vs f = true ->
+    impl_parse_validate_config vs ty f = VErr e -> class_ok_config ty vs f e = false.
+Proof. exact config_error_sound. Qed.
+Print Assumptions C02_config_error_sound.
+
+(* and when exactly one class is violated, that class is reported: a config false node in an otherwise valid
+   configuration is reported as "state" *)
+Theorem C02_config_error_class :
+  forall ty vs f e, vschema_ok (cfg_view vs) = true -> fresh vs f = true ->
+    class_ok_config ty vs f e = false -> (forall e', e' <> e -> class_ok_config ty vs f e' = true) ->
+    impl_parse_validate_config vs ty f = VErr e.
+Proof. exact config_error_class. Qed.
+Print Assumptions C02_config_error_class.
+
+(* what the configuration view keeps and what it drops *)
+Theorem C02_config_view :
+  forall vs s, (info (cfg_view vs) s = neut (info vs s)) /\ (kind (cfg_view vs) s = kind vs s) /\
+    (si_config (info (cfg_view vs) s) = si_config (info vs s)) /\ (vs_tree (cfg_view vs) = vs_tree vs) /\
+    (forall f, rfc_nostate (cfg_view vs) f = rfc_nostate vs f).
+Proof.
+  exact (fun vs s => conj (info_cfg_view vs s) (conj (kind_cfg_view vs s) (conj (config_cfg_view vs s)
+           (conj eq_refl (nostate_cfg_view vs))))).
+Qed.
+Print Assumptions C02_config_view.
+
+(* container c { presence; leaf a; leaf st { config false; mandatory true; } list sl { config false; min-elements 1; } }:
+   the configuration alone is accepted with the option (and rejected without it: the mandatory state leaf is missing);
+   configuration + state is valid without the option and rejected with it (EState) *)
+Theorem C02_config_example :
+  vschema_ok (cfg_view ns_schema) = true /\ cfg_ready ns_schema = true /\
+  impl_parse_validate_config ns_schema ty_any ns_cfg = VOk /\ rfc_valid_config ty_any ns_schema ns_cfg = true /\
+  impl_parse_validate ns_schema ty_any ns_cfg = VErr ENoMand /\
+  impl_parse_validate ns_schema ty_any ns_full = VOk /\
+  impl_parse_validate_config ns_schema ty_any ns_full = VErr EState /\ rfc_valid_config ty_any ns_schema ns_full = false.
+Proof. exact ns_facts. Qed.
+Print Assumptions C02_config_example.
 
 (* The hypotheses are satisfiable by a schema with every modelled construct (mandatory leaf in a non-presence
    container, mandatory choice, list with key, unique with a default, min/max-elements, leaf-list) and a valid instance;
